@@ -33,7 +33,7 @@
 From Coq Require Import NArith ZArith List Bool.
 Require Import Board Move GameOver Refine RefinePlace2 Inst LegalMove LegalMoveLive LegalMoveInst.
 Require Mcts MctsFacts MctsFacts2 MctsFacts3 MctsFacts4 MctsFacts5 PtnFileSafe.
-Require Opening OpeningFacts1 OpeningFacts2 OpeningFacts OpeningEx Preserve1 Preserve5 TpsFacts5 Generated.Consts.
+Require Opening OpeningFacts1 OpeningFacts2 OpeningFacts OpeningFacts3 OpeningEx AllMovesFacts5 Preserve1 Preserve5 TpsFacts5 Generated.Consts.
 Import ListNotations.
 
 (* (1) A live position has a legal move and AllMoves lists it.  wf: sizes 3..8, Height/Stacks of length size^2,
@@ -297,8 +297,9 @@ Print Assumptions C04_mcts_nonvacuous_runs.
      reserves).  Every position reached from tak.New(Config{Size}) by legal moves satisfies all three
      (C04_game_positions_satisfy_query_hypotheses, sizes 3..6).
    Non-vacuity: C04_opening_book_nonvacuous (a concrete two-move 5x5 line: the book builds, every hypothesis holds, a move is returned).
-   NOT proved (would make the statement "never panics"): Int31n's argument int32(sum) stays positive - it does as long as
-   an entry's weights sum to less than 2^31, i.e. for every book with fewer than 2^28 words; the model keeps the panic. *)
+   "Not Panic": C04_opening_book_get_move_no_panic / C04_opening_player_no_panic below - for a book of fewer than 2^28 words
+   GetMove returns for EVERY position, random source and hash behaviour (Int31n's argument int32(sum) stays positive because an
+   entry's weights sum to at most 8 per word); above that bound the model, like the code, panics in rand.Int31n. *)
 Theorem C04_opening_book_move_legal :
   forall (sz : Z) (lines : list (list N)) (b : Opening.book) (p : position) (rnd : nat -> Z -> Z) (i : nat) (m : rmove) (j : nat),
   Opening.build_book Generated.Consts.gen_basis sz lines = Opening.BOk b ->
@@ -370,3 +371,24 @@ Theorem C04_opening_book_nonvacuous :
   Opening.book_get_move b p (fun _ _ => 0%Z) 0 = Ok (m, true, j) /\ m <> Opening.zero_move.
 Proof. exact OpeningEx.ex_nonvacuous. Qed.
 Print Assumptions C04_opening_book_nonvacuous.
+
+(* OpeningBook.GetMove / OpeningPlayer.GetMove never panic on a book BuildOpeningBook returned, as long as the lines hold fewer
+   than 2^28 words (OpeningFacts3.words counts them as strings.Split does): no hypothesis on the position, the hashes or the
+   random source.  With C04_opening_book_move_legal: "the returned move is Ok on p, and the call is not Panic". *)
+Theorem C04_opening_book_get_move_no_panic :
+  forall (sz : Z) (lines : list (list N)) (b : Opening.book) (p : position) (rnd : nat -> Z -> Z) (i : nat),
+  (8 * Z.of_nat (OpeningFacts3.words lines) < 2147483648)%Z ->
+  Opening.build_book Generated.Consts.gen_basis sz lines = Opening.BOk b ->
+  exists m ok j, Opening.book_get_move b p rnd i = Ok (m, ok, j).
+Proof. exact OpeningFacts3.book_get_move_no_panic. Qed.
+Print Assumptions C04_opening_book_get_move_no_panic.
+
+Theorem C04_opening_player_no_panic :
+  forall (sz : Z) (lines : list (list N)) (b : Opening.book) (inner : position -> Move.res rmove) (p : position)
+         (rnd : nat -> Z -> Z) (i : nat),
+  (8 * Z.of_nat (OpeningFacts3.words lines) < 2147483648)%Z ->
+  Opening.build_book Generated.Consts.gen_basis sz lines = Opening.BOk b ->
+  (exists m, inner p = Ok m) ->
+  exists m j, Opening.opening_player_get_move b inner p rnd i = Ok (m, j).
+Proof. exact OpeningFacts3.opening_player_no_panic. Qed.
+Print Assumptions C04_opening_player_no_panic.
